@@ -237,6 +237,7 @@ pub struct AgentFeatures {
     pub kinds: u32,
     pub clamped_low: u64,
     pub clamped_high: u64,
+    pub momentum_saturated: u64,
 }
 
 fn is_market(o: &OrderRec) -> bool {
@@ -275,6 +276,7 @@ fn run_agent_inner(c: &AgentCase, feat: &mut AgentFeatures) -> Result<(), Failur
     let mut own: std::collections::BTreeSet<usize> = Default::default();
     let mut last_of: std::collections::BTreeMap<u32, usize> = Default::default();
     let n_traders = ids.len();
+    let (mut mom_m, mut mom_last): (f64, Option<f64>) = (0.0, None);
 
     for step in 0..c.steps as usize {
         // occasional harness quote (moves the touch under the agent)
@@ -387,7 +389,36 @@ fn run_agent_inner(c: &AgentCase, feat: &mut AgentFeatures) -> Result<(), Failur
                     }
                 }
             }
-            AgentSpec::Momentum { .. } => {}
+            AgentSpec::Momentum { decay_milli, demand_milli, scale_milli, ratio_milli, .. } => {
+                // the documented signal, recomputed from the mid-prices the agent saw (same recurrence as C17);
+                // only its deterministic corners are asserted here: M = 0 => nothing, M > 0 => no sells,
+                // M < 0 => no buys, probability >= 1 => exactly one order of that kind per trader
+                let (decay, demand, scale, ratio) = (*decay_milli as f64 / 1000.0, *demand_milli as f64 / 1000.0, *scale_milli as f64 / 1000.0, *ratio_milli as f64 / 1000.0);
+                let mk = match mom_last {
+                    Some(p) => mom_m * (1.0 - decay) + decay * (mid_seen - p),
+                    None => 0.0,
+                };
+                let pm = if mom_last.is_some() && n_traders > 0 { (demand * (scale * mk).tanh() / n_traders as f64).abs() } else { 0.0 };
+                let pl = ratio * pm;
+                let buys = new.iter().filter(|o| o.bid).count();
+                let sells = new.len() - buys;
+                if (mk == 0.0 && !new.is_empty()) || (mk > 0.0 && sells > 0) || (mk < 0.0 && buys > 0) {
+                    return Err(fail("C16 momentum agent's orders contradict its momentum signal", step, format!("M = {}: {} buys, {} sells", mk, buys, sells)));
+                }
+                for (p, by, what) in [(pm, &market_by, "market"), (pl, &limit_by, "limit")] {
+                    if mk != 0.0 && p >= 1.0 + 1e-9 && (by.len() != n_traders || by.values().any(|x| *x != 1)) {
+                        return Err(fail("C16 action with probability >= 1 did not happen once per trader", step, format!("momentum M = {}, probability {}: {} orders per trader {:?}, {} traders", mk, p, what, by, n_traders)));
+                    }
+                    if p <= 0.0 && !by.is_empty() {
+                        return Err(fail("C16 action with probability 0 happened", step, format!("momentum M = {}: {} orders {:?}", mk, what, by)));
+                    }
+                }
+                if mk != 0.0 && pm >= 1.0 + 1e-9 {
+                    feat.momentum_saturated += 1;
+                }
+                mom_m = mk;
+                mom_last = Some(mid_seen);
+            }
         }
         for o in new.iter() {
             last_of.insert(o.trader, o.id);
@@ -466,6 +497,7 @@ pub fn outcome_c16(c: &AgentCase) -> Outcome {
                     ("runs_on_two_sided_book", f.two_sided as u64),
                     ("buy_price_clamped_to_0", f.clamped_low),
                     ("sell_price_clamped_to_top_of_grid", f.clamped_high),
+                    ("momentum_updates_at_saturated_demand", f.momentum_saturated),
                 ],
                 result: res.err(),
             }
